@@ -258,3 +258,5 @@ def build2d(chk):
 def build(chk):
     _build1d(chk)
     build2d(chk)
+    from . import C20
+    chk.include(C20, r".", "uses:C20")          # the mesh contract the exactness clauses are stated over
